@@ -14,7 +14,7 @@ func init() {
 	addVariants(
 		twin("C06", "C06-b1", "helper-queues-a-semicolon", "ast/code_writer_format.go", "cw.deferLayout(' ')", "cw.deferLayout(';')", "R6.1", "deferLayout"),
 		twin("C14", "C14-b4", "code-differs-on-the-map-branch", "compiler/compiler.go", "return CompileResult{Code: code, SourceMap: w.Mapper.SourceMap()}", "return CompileResult{Code: code + \"\\n\", SourceMap: w.Mapper.SourceMap()}", "R14.6", "guard"),
-		twin("C10", "C15-b1", "whitespace-helper-forgets-the-flag", "lexer/lexer.go", "\t\tif l.CurrentChar == '\\n' {\n\t\t\tl.hadNewlineBefore = true\n\t\t\tl.leadingComments = append(l.leadingComments, \"\")", "\t\tif l.CurrentChar == '\\n' {\n\t\t\tl.leadingComments = append(l.leadingComments, \"\")", "R10.6", "skipWhitespace"),
+		twin("C10", "C15-b1", "whitespace-helper-forgets-the-flag", "lexer/lexer.go", "\t\tif l.CurrentChar == '\\n' {\n\t\t\tl.hadNewlineBefore = true\n\t\t\tl.leadingComments = append(l.leadingComments, \"\")", "\t\tif l.CurrentChar == '\\n' {\n\t\t\tl.leadingComments = append(l.leadingComments, \"\")", "R10.6", "skipper"),
 		twin("C15", "C15-b1", "comment-helper-skips-first-byte", "lexer/lexer.go", "\t\tcomment.WriteByte(l.CurrentChar)\n\t\tl.ReadChar()", "\t\tl.ReadChar()\n\t\tcomment.WriteByte(l.CurrentChar)", "R15.6", "append"),
 		twin("C02", "C10-b3", "table-entry-for-paren-wrong", "lexer/base_functions.go", "'(': token.LPAREN,", "'(': token.RPAREN,", "R2.3", "LPAREN"),
 		twin("C10", "C10-b1", "two-char-helper-forgets-advance", "lexer/base_functions.go", "\tfirst := l.CurrentChar\n\tl.ReadChar()", "\tfirst := l.CurrentChar", "R10.7", "dispatcher path"),
@@ -27,6 +27,12 @@ func init() {
 		twin("C04", "C04-b1", "combinator-restores-conditionally", "parser/parser.go", "\tdefer func() {\n\t\tp.currentExpressionPrecedence = oldPrecedence\n\t}()", "\tdefer func() {\n\t\tif oldPrecedence != 0 {\n\t\t\tp.currentExpressionPrecedence = oldPrecedence\n\t\t}\n\t}()", "R4.5", "restore"),
 		twin("C04", "C04-b1", "combinator-given-another-level", "parser/parser.go", "return p.withExpressionPrecedence(precedence, func() ast.Expression {", "return p.withExpressionPrecedence(precedence+1, func() ast.Expression {", "R4.5", "save and set"),
 		twin("C04", "C04-b1", "combinator-calls-the-body-twice", "parser/parser.go", "\treturn parse()", "\tparse()\n\treturn parse()", "R4.1", "interceptor called exactly once"),
+		twin("C10", "C10-r3-1", "reported-line-break-ignored-by-the-skipper", "lexer/lexer.go", "\t\tif l.skipWhitespace() {\n\t\t\tl.hadNewlineBefore = true\n\t\t}", "\t\tl.skipWhitespace()", "R10.6", "skipper: return"),
+		twin("C10", "C10-r3-1", "comment-helper-never-reports", "lexer/lexer.go", "\treturn strings.TrimRight(text, \" \"), sawNewline", "\treturn strings.TrimRight(text, \" \"), false", "R10.6", "skipper: return"),
+		twin("C10", "C10-r3-1", "report-assigned-instead-of-ored", "lexer/lexer.go", "\t\t\tif sawNewline {\n\t\t\t\tl.hadNewlineBefore = true\n\t\t\t}", "\t\t\tl.hadNewlineBefore = sawNewline", "R10.6", "computed value stored"),
+		twin("C11", "C11-r3-1", "for-arm-bypasses-the-converter", "parser/base_parser_functions.go", "return statementOrNil(p.ParseForStatement())", "return p.ParseForStatement()", "R11.1", "ForStatement"),
+		twin("C15", "C15-r3-2", "start-of-output-test-hoisted", "ast/code_writer_comments.go", "\tfor _, entry := range rest {\n\t\tif !cw.atOutputStart() {", "\tatStart := cw.atOutputStart()\n\tfor _, entry := range rest {\n\t\tif !atStart {", "R15.7", "emptiness test"),
+		twin("C16", "C16-r3-1", "rest-helper-pushes-before-the-parameters", "parser/parser_functions.go", "\tparams := p.ParseFunctionParameters()", "\tp.PushContext(FunctionContext)\n\tdefer p.PopContext()\n\tparams := p.ParseFunctionParameters()", "R16.4", "ParseFunction"),
 	)
 	_ = ref
 }
